@@ -139,6 +139,8 @@ def AsmOp.judge (prop : String) (op : AsmOp) (out : String) : Expect :=
   -- C18: what the classifier accepts is dispatched only once the announced number of bytes is there
   else if prop == "C16" then (if op.chunks.length > 1 then judgeC15 op out else judgeC16 op out)
   else if prop == "C18" then judgeC15 op out
+  -- C10: the assembler is the consumer of the dispatcher's errors; whatever the bytes, it does not panic
+  else if prop == "C10" then .pred ((out.splitOn "PANIC").length == 1) "the assembler must not panic on any input"
   else .noPanic
 
 def AsmOp.kf (prop : String) (op : AsmOp) : Option String :=
